@@ -75,7 +75,64 @@ def run_kinds(rep: Rep, w: Walker, prefix: str = "", rules=("K1", "K2", "K3", "K
         rep.chk.ob(prefix + rule, ev.fn.qual, text, ok, detail,
                    file=rep.repo.modules[ev.fn.module].relpath, line=ev.line)
 
-    return k.check(report, rules=rules)
+    out = k.check(report, rules=rules)
+    check_dtypes(rep, w, prefix)
+    return out
+
+
+NARROW_DTYPES = {"numpy.float32", "numpy.float16", "numpy.half", "numpy.single", "numpy.int8", "numpy.int16", "numpy.uint8",
+                 "numpy.uint16", "numpy.uint32", "numpy.uint64", "numpy.uintp", "numpy.uint", "numpy.ubyte", "numpy.ushort",
+                 "numpy.bool_", "numpy.bool"}
+NARROW_NAMES = {"float32", "float16", "f4", "f2", "<f4", "int8", "int16", "i1", "i2", "uint8", "uint16", "uint32", "uint64",
+                "u1", "u2", "u4", "u8", "single", "half", "e"}
+
+
+def narrow_dtype(t) -> bool:
+    """A dtype term narrower than the library's working types (float64 / the platform integer), or unsigned."""
+    if t is None:
+        return False
+    if t[0] == "mod" and t[1] in NARROW_DTYPES:
+        return True
+    if t[0] == "const" and isinstance(t[1], str) and t[1] in NARROW_NAMES:
+        return True
+    if t[0] == "call" and t[1] == ("mod", "numpy.dtype") and t[2]:
+        return narrow_dtype(t[2][0])
+    return False
+
+
+def check_dtypes(rep: Rep, w: Walker, prefix: str = "") -> int:
+    """DTYPE-narrow: the library keeps distances, costs, densities, counts and identifiers in float64 / platform
+    integers everywhere; a buffer, a conversion or a cast in an analysed function that names a narrower (or an
+    unsigned) type rounds distances (ties appear and orders change), truncates, or wraps NIL / large identifiers."""
+    from .ir import subterms
+    n = 0
+    seen = set()
+    for e in w.events:
+        for top in [x for x in (e.value, e.target) if x is not None] + list(e.args or ()):
+            for t in subterms(top):
+                if t[0] not in ("alloc", "call") or len(t) < 4:
+                    continue
+                dt = dict(t[3]).get("dtype") if isinstance(t[3], tuple) else None
+                if t[0] == "call" and t[1][0] == "attr" and t[1][2] in ("astype", "view") and t[2]:
+                    dt = dt or t[2][0]
+                name = t[1] if t[0] == "alloc" else (t[1][1] if t[1][0] == "mod" else "")
+                if t[0] == "call" and t[1][0] == "mod" and t[1][1] in NARROW_DTYPES and t[2]:
+                    dt = t[1]  # np.float32(x)
+                if isinstance(name, str) and name.startswith("numpy.") and len(t[2]) >= 2 and name.split(".")[-1] in (
+                        "zeros", "ones", "empty", "full", "array", "asarray", "asanyarray", "fromiter", "zeros_like", "empty_like",
+                        "ones_like", "full_like", "arange"):
+                    pos = {"full": 2, "full_like": 2, "arange": 3}.get(name.split(".")[-1], 1)
+                    if len(t[2]) > pos:
+                        dt = dt or t[2][pos]
+                if narrow_dtype(dt) and (e.seq, t) not in seen:
+                    seen.add((e.seq, t))
+                    n += 1
+                    from .ir import show
+                    rep.chk.ob(prefix + "DTYPE-narrow", e.fn.qual, e.text()[:120], False,
+                               f"'{show(t)[:80]}' uses the type {show(dt)}: values that the library keeps in float64 / platform "
+                               "integers are rounded, truncated or wrapped (distances that differ become equal, NIL and large "
+                               "identifiers change)", file=rep.repo.modules[e.fn.module].relpath, line=e.line)
+    return n
 
 
 def _mentions(g, construct: str) -> bool:
